@@ -5,7 +5,7 @@ from ..types import TVec, STRSLICE
 from ..values import is_variant, payload, Vc, St, Sc, bv, mk_variant, fresh
 from .. import replay as rp
 from .. import oracles as O
-from .setops import bits_for, fnr, built
+from .setops import premise_group, bits_for, fnr, built
 
 BOUNDS = {'quick': {'comparators folded in one alternative': '1..3 (any of them possibly dropped as garbage)', 'alternatives flattened': '1..2 of <= 2 intervals'},
           'thorough': {'comparators folded in one alternative': '1..4', 'alternatives flattened': '1..3 of <= 2 intervals'}}
@@ -24,6 +24,7 @@ def groups(tier):
     for k in range(1, (2 if tier == 'quick' else 3) + 1):
         gs.append({'name': 'flatten-%d' % k, 'fn': flatten_group, 'args': {'k': k}})
     gs.append({'name': 'range_set', 'fn': range_set_group, 'args': {}})
+    gs.append(premise_group(tier))
     return gs
 
 
